@@ -125,8 +125,16 @@ def run_case(case):
             f1 = set(C["runs"][1].float_digests())
             sh = f0 & f1
             probes["resume_arm_reached"] = 1
+            # not judged (no listed property states it): does the resumed seeded run end exactly where the uninterrupted seeded run ends?
+            if not case.get("rerun_arm") and C["info"]["completed"]:
+                stats["resumed_equals_uninterrupted" if C["digest"] == A1["digest"] else "resumed_differs_from_uninterrupted"] = 1
             if sh and len(f1) > 16:
                 V("resume.replays_innovations", f"after resuming from a checkpoint the run re-used {len(sh)} of its first {len(f0)} 64-bit draw values (the stream was rewound to its initial seed)", op="resume")
+            # the resumed, seeded sampler is itself "a sampler constructed with a given random_state and run on the same inputs" (incl. the same checkpoint):
+            # it must give the same history whatever the process-wide stream held when the resuming process started
+            C2 = run_plain(case, s2, R, scen=dict(scenario="crash_resume", save_every=1, like_fault=dict(kind="crash.process", batch=case["resume_arm"])))
+            if C2["info"]["resumed"] and C2["info"].get("resume_from") == C["info"].get("resume_from") and (C2["digest"] != C["digest"] or C2["ev"] != C["ev"]):
+                V("seed.not_reproducible", f"two seeded samplers (random_state={R}) resumed from the same checkpoint gave different histories/evidence ({C['ev']!r} vs {C2['ev']!r}) when the resuming process's stream was in a different state", op="resume")
     # (c) library operations on data
     drng = np.random.RandomState(case["seed"] % (2**31))
     n = 160
